@@ -66,9 +66,14 @@ class AsyncGraphNodeExecutor:
             _, mode, error_handling = map_config
             # Use original param names for map_over (inner graph expects these)
             original_params = node._original_map_params()
+            # Values the inner graph has bound itself are resolved (by identity)
+            # inside every item run. Passing them along would turn them into
+            # broadcast values and make them subject to clone.
+            inner_bound = node.graph.inputs.bound
+            map_inputs = {k: v for k, v in inner_inputs.items() if not (k in inner_bound and v is inner_bound[k])}
             results = await self.runner.map(
                 node.graph,
-                inner_inputs,
+                map_inputs,
                 map_over=original_params,
                 map_mode=mode,
                 clone=node._original_clone(),
